@@ -491,9 +491,34 @@ pub fn strip_shapes(case: &Case, class: Option<&str>) -> Case {
     out
 }
 
+/// the multi-line string literal that is part of the planted statement itself (contexts string-tail, list-str),
+/// written on one line
+fn collapse_plant_string(case: &Case) -> Option<Case> {
+    let mut c = case.clone();
+    let w = c.plant.wraps.last_mut()?;
+    match w.kind.as_str() {
+        "string-tail" => {
+            c.plant.prefix = format!("{} {}", w.open.join(" "), c.plant.prefix);
+            w.open.clear();
+        }
+        "list-str" => {
+            let tail = w.open.split_off(1);
+            w.open.push(format!("    {}", tail.iter().map(|l| l.trim()).collect::<Vec<_>>().join(" ")));
+        }
+        _ => return None,
+    }
+    Some(c)
+}
+
 /// which preceding text shape a wrong location depends on: `any-text` when it is wrong without any shape
 fn blame(case: &Case, before: &BTreeSet<String>) -> String {
-    if is_wrong(&strip_shapes(case, None)) {
+    let bare = strip_shapes(case, None);
+    if is_wrong(&bare) {
+        if let Some(c) = collapse_plant_string(&bare) {
+            if !is_wrong(&c) {
+                return "after-multiline-string".into();
+            }
+        }
         return "any-text".into();
     }
     for c in SHAPE_CLASSES.iter() {
